@@ -341,7 +341,7 @@ def main(argv=None):
         orig = mod.cases
         mod.cases = lambda tier, seed: [c for c in orig(tier, seed) if a.only in c.name]
     cases, results = run_cases(modname, a.tier, seed, a.jobs)
-    agg = dict(obligations=0, discharged=0, nontrivial=0, paths=0, feas_queries=0, queries=0, solver_s=0.0, trivial=0)
+    agg = dict(obligations=0, discharged=0, nontrivial=0, paths=0, feas_queries=0, queries=0, solver_s=0.0, trivial=0, cvc5_agree=0, cvc5_disagree=0, cvc5_unknown=0, cvc5_s=0.0)
     by_shape = {}
     samples, violations, inconclusive, errors, notes = [], [], [], [], []
     exhaustive = True
@@ -357,6 +357,8 @@ def main(argv=None):
         agg["queries"] += r["smt"]["queries"] + r["feas_queries"]
         agg["solver_s"] += r["smt"]["solver_s"]
         agg["trivial"] += r["smt"]["trivial"]
+        for k_ in ("cvc5_agree", "cvc5_disagree", "cvc5_unknown", "cvc5_s"):
+            agg[k_] += r["smt"].get(k_, 0)
         for sh, d in r["by_shape"].items():
             t = by_shape.setdefault(sh, dict(unsat=0, sat=0, unknown=0))
             for k in d:
@@ -420,6 +422,8 @@ def main(argv=None):
             functions_encoded=getattr(mod, "FUNCTIONS", []), bounds=getattr(mod, "BOUNDS", {}).get(a.tier, getattr(mod, "BOUNDS", {})),
             outside_claim=getattr(mod, "OUTSIDE", []), stubs=getattr(mod, "STUBS", []),
             solver="z3 %s (python API, one-shot per obligation; incremental for branch feasibility)" % z3.get_version_string(),
+            second_solver=dict(name="cvc5 1.4 on z3's SMT-LIB2 text of a sample of the obligation queries (first N per case and every M-th; 1 s cap quick / 5 s thorough)",
+                               agree=agg["cvc5_agree"], disagree=agg["cvc5_disagree"], no_answer_within_cap=agg["cvc5_unknown"], seconds=round(agg["cvc5_s"], 2)),
             solver_s=round(agg["solver_s"], 2), reachability_twins=dict(checked=reach_checked, sat=reach_sat),
             cases=case_rows, notes=notes,
             known_findings=[dict(key=k, what=kf["what"]) for k, (kf, _) in known_hits.items()],
